@@ -543,5 +543,13 @@ func trun(t *testing.T, cfg tconfig, seq []act, keepTrace bool) (res result) {
 	if br.Deadlock != "" {
 		res.harness = "goroutines blocked forever at the end of the execution: " + br.Deadlock
 	}
+	if br.Hang != "" {
+		res.viol = append(res.viol, ledger.Violation{Kind: "deadlock", Cause: br.Hang,
+			Msg: "the endpoint can never become quiescent again: every goroutine of the connection is blocked and one waits for a mutex nobody will release: " + br.Hang + "\n" + br.HangStack})
+		res.hung = true
+	}
+	if br.Watchdog != "" {
+		res.harness = br.Watchdog
+	}
 	return res
 }
